@@ -24,7 +24,7 @@ ASSUMPTIONS = [
 ]
 CASES = {"quick": 15000, "thorough": 600000}
 MIN_CASES = {"quick": 3000, "thorough": 10000}
-REQUIRED_COUNTERS = ["rectangles_reassigned_through_the_api", "allocated_again_after_initial_grid", "allocated_again_after_further_refinement", "hard_modules_relocated_before_allocation", "ratios_compared", "membership_judged", "fixed_cells_checked", "module_areas_compared", "squares_checked",
+REQUIRED_COUNTERS = ["fixed_modules_released_before_the_die_was_built", "rectangles_reassigned_through_the_api", "allocated_again_after_initial_grid", "allocated_again_after_further_refinement", "hard_modules_relocated_before_allocation", "ratios_compared", "membership_judged", "fixed_cells_checked", "module_areas_compared", "squares_checked",
                      "refine:none", "refine:split", "refine:grid", "zero:on", "zero:off", "full_cover_cells"]
 
 
@@ -53,7 +53,10 @@ def generate(rng, tier, i):
         for name, m in doc["Modules"].items():
             if m.get("hard") is True:
                 move[name] = [rng.choice([-1, 1, 2, 0.5]) * float(d["W"]) / max(d["nx"], 1), rng.choice([0, 1, -0.5]) * float(d["H"]) / max(d["ny"], 1)]
-    return {"cls": ref[0], "die": slim, "netlist": doc, "refine": ref, "zero": rng.random() < 0.3, "move": move, "allocate_twice": twice_on_empty or rng.random() < 0.2, "reassign": rng.random() < 0.2}
+    release = []
+    if rng.random() < 0.25:
+        release = [name for name, m in doc["Modules"].items() if m.get("fixed") and "rectangles" in m and not m.get("terminal") and rng.random() < 0.6]
+    return {"release": release, "cls": ref[0], "die": slim, "netlist": doc, "refine": ref, "zero": rng.random() < 0.3, "move": move, "allocate_twice": twice_on_empty or rng.random() < 0.2, "reassign": rng.random() < 0.2}
 
 
 def directed():
@@ -72,6 +75,7 @@ def run(case):
     from frame.allocation.allocation import create_initial_allocation
     d = dict(case["die"])
     d["netlist"] = case["netlist"]
+    d["release"] = case.get("release") or []
     if case.get("reassign"):
         # the same rectangles handed over again through Netlist.assign_rectangles (movable hard and soft modules)
         d["assign"] = {k: (m["rectangles"] if not isinstance(m["rectangles"][0], (int, float)) else [m["rectangles"]])
@@ -95,7 +99,9 @@ def check(case, ctx):
     ctx.count("refine:" + case["refine"][0])
     if case.get("reassign"):
         ctx.count("rectangles_reassigned_through_the_api")
-    want_fixed = sorted(tuple(map(float, r[:4])) for m in case["netlist"]["Modules"].values() if m.get("fixed") for r in (m["rectangles"] if not isinstance(m["rectangles"][0], (int, float)) else [m["rectangles"]]))
+    if case.get("release"):
+        ctx.count("fixed_modules_released_before_the_die_was_built", len(case["release"]))
+    want_fixed = sorted(tuple(map(float, r[:4])) for k_, m in case["netlist"]["Modules"].items() if m.get("fixed") and k_ not in (case.get("release") or []) for r in (m["rectangles"] if not isinstance(m["rectangles"][0], (int, float)) else [m["rectangles"]]))
     if sorted(dieutil.rect_key(r)[:4] for r in die.fixed_regions) != want_fixed:
         ctx.violation("fixed_regions", f"the die's fixed regions {sorted(dieutil.rect_key(r)[:4] for r in die.fixed_regions)} are not the rectangles of the fixed modules {want_fixed}")
         return
